@@ -8,6 +8,10 @@ def slurmOps : List (String × (Json → R Json)) := [
   ("slurm.parse", fun j => do
     let text ← str j "text"
     let ids ← strList j "ids"
+    -- `squeueRet ≠ 0`: squeue failed through all retries: `check_statuses` raises ExecutionError, which
+    -- `HpcStatusCollector.check_status` lets through — nothing is decided about any batch
+    let ret := (int j "squeueRet").toOption.getD 0
+    if ret != 0 then return jerr .execError
     match parseSqueue text.toList with
     | .error e => pure (jerr e)
     | .ok pairs =>
